@@ -3,17 +3,65 @@
 import json, os
 ROOT = os.path.dirname(os.path.dirname(os.path.abspath(__file__)))
 
+RUST_NOTE = "Rust core compiled unmodified from /repo's working tree through rust/core-shadow (features perfetto/cli off, snapshot via the local zip shim); the harness binary is a thin JSON adapter."
 CHECKS = {
  # id: (technique, level text, level_note, design_ref)
  "C01": ("exhaustive enumeration of structural instruction heads + Hypothesis raw bytes / decode histories; oracle: totality, length bounds, trailing-byte and history independence, cross-consumer agreement",
          "Exploration: the structural part of the input space (prefix x opcode x second byte, ~1.05M heads) is enumerated completely in the thorough tier (stratified 1/16 + all operand-validating opcodes in quick); remaining operand bytes, addresses, truncations, hostile tails and decode histories are generated. Finds any consumer disagreement or escaping exception on the explored inputs; does not prove absence for unexplored tails.",
-         "Trusts binja_test_mocks (mock Binary Ninja API) and the harness's reading of 'emulator fetch path' = Emulator.decode_instruction.",
-         "DESIGN.md 4/C01"),
- "C06": ("differential testing Python emulator vs Rust LLAMA executor on generated (encoding, state) pairs over an identical hash-filled bus",
-         "Exploration: every decoder-accepted structural head (thorough) / every (prefix, opcode) pair (quick) is executed once on both cores from a generated state and compared field by field (registers, flags, PC, length, power state, final memory).",
-         "Rust core compiled unmodified from /repo through a shadow manifest (features perfetto/cli off); both cores see the harness's canonicalising bus; TEMP registers and call bookkeeping not compared.",
-         "DESIGN.md 4/C06"),
+         "Trusts binja_test_mocks (mock Binary Ninja API) and the harness's reading of 'emulator fetch path' = Emulator.decode_instruction."),
+ "C02": ("exhaustive enumeration of structural heads x don't-care tail patterns; round-trip oracle encode(decode(b)) == consumed bytes, re-decode equality, guard-never-demotes",
+         "Exploration: every structural head (complete in thorough, 1/8 stratified in quick) with three tails exercising ignored bits is decoded, re-encoded and compared byte for byte; the text callback's round-trip guard must accept whatever the info callback accepts.",
+         "Domain = byte strings the info callback accepts; IL equality is structural equality of mock-LLIL reprs."),
+ "C03": ("generated (encoding, state) pairs; reference operand-location model driven by the rendered token stream vs logged memory callbacks and register deltas",
+         "Exploration: decoder-accepted encodings x states in which all internal-memory addressing modes denote distinct addresses; the set of locations the lifted IL reads/writes must equal the set the rendered operands denote under the README addressing rules.",
+         "Reference semantics written from sc62015/pysc62015/README.md; mnemonics it does not model are skipped and counted."),
+ "C04": ("complete enumeration of 8-bit operand pairs x carry (2^17 per operation) + boundary/random wide operands; README-derived executable reference semantics + frame condition",
+         "Exploration: 8-bit ALU value space enumerated completely in thorough; other encodings and widths by boundary grids and random sampling; destination, C/Z (only where documented), side effects and 'nothing else changes' compared with the reference.",
+         "Where README, code comments and maintainers' tests disagree only the agreed part is asserted (DESIGN appendix B)."),
+ "C05": ("grid enumeration of control-flow encodings x addresses x flags x operands + generated call/return pairs; static InstructionInfo vs executed PC, inverse-pair law",
+         "Exploration: all branch/call/return encodings over page-boundary and interior addresses and all flag values; non-branch encodings sampled for the fall-through direction; call..ret and IR..RETI pairs with generated stack-neutral bodies.",
+         "Python core only (the metadata is Python); execution through the repository's own emulator."),
+ "C06": ("differential testing Python emulator vs Rust LLAMA executor on generated (encoding, state) pairs over an identical hash-filled bus, plus lockstep programs",
+         "Exploration: every decoder-accepted structural head (thorough) / every (prefix, opcode) pair (quick) is executed once on both cores from a generated state and compared field by field (registers, flags, PC, length, power state, final memory); generated straight-line programs are run in lockstep.",
+         RUST_NOTE + " Each core is paired with the address canonicalisation of its own project memory model; TEMP registers and call bookkeeping are not compared."),
+ "C07": ("metamorphic testing: history-then-probe vs fresh core, N+M splits, twin emulators, per core",
+         "Exploration: generated execution histories (instructions, TEMP junk, call bookkeeping) followed by a probe instruction from a re-imposed architectural state must equal a fresh core's result; all split points of generated runs; twin-trace equality.",
+         RUST_NOTE),
+ "C08": ("Hypothesis stateful/sequence generation of register writes/reads/snapshot round trips against a reference register-file model; Python<->Rust differential",
+         "Exploration: generated write/read sequences with boundary-biased 32-bit values on both register files, compared with a reference model after every step; snapshot/apply round trips.",
+         RUST_NOTE),
+ "C09": ("round-trip testing disassemble -> assemble -> disassemble on generated accepted encodings, behavioural equivalence on a generated state, idempotence",
+         "Exploration: texts rendered from decoder-accepted encodings (all opcodes x prefixes x mode bytes) are fed to the assembler; result must re-disassemble to the same text, behave identically and be a fixed point.",
+         "Text normalisation is the one the statement prescribes; byte equality is not required."),
+ "C10": ("grammar-based program generation (Hypothesis) + layout reference model, per-statement standalone equivalence, determinism over assemble() call histories",
+         "Exploration: generated programs with labels (forward/backward), sections, .ORG, data directives and symbolic operands; sizes, addresses, label encodings and statelessness checked against a layout model.",
+         "Instruction palette restricted to statement shapes that assemble standalone on the unchanged tree (exclusions counted)."),
+ "C11": ("Hypothesis stateful testing of load/store sequences under generated memory configurations against a reference memory model (both machine models, plus the Rust CPU-facing bus)",
+         "Exploration: generated configurations and 8/16/24-bit accesses at boundary-biased 32-bit addresses; every load and a set of sentinel addresses compared with the model after every operation.",
+         RUST_NOTE + " Device windows are excluded from plain-memory rules."),
+ "C12": ("scenario generation (ROM programs x event schedules) with a step-boundary monitor; depth-bounded complete enumeration of short event sequences",
+         "Exploration: the harness owns the schedule, so interleavings of timer expiries, key events and IMR/ISR writes relative to instruction boundaries are generated inputs; gate, frame, no re-entry, RETI restore, not-lost, halt/off rules monitored per model.",
+         RUST_NOTE + " 'Promptly' is checked as a bounded-response property with the bound taken from the step loops."),
+ "C13": ("complete enumeration of small period pairs + sampled large periods x generated monotone cycle sequences; arithmetic reference + Python<->Rust differential",
+         "Exploration: per-cycle and gapped tick sequences with reset/restore points; exactly-once-per-boundary, next-target-in-future, ISR bit, disabled/zero-period and cross-implementation equality.",
+         RUST_NOTE),
+ "C14": ("Hypothesis stateful testing of key/strobe/scan/read histories with history invariants (KIL safety/visibility, per-key event grammar, FIFO bound, KEYI gating), per model",
+         "Exploration: generated histories over all mapped keys, both polarities and debounce/repeat settings; invariants evaluated over the recorded history, not a copy of the automaton.",
+         RUST_NOTE + " Thresholds are read from the object under test."),
+ "C15": ("Hypothesis stateful testing of LCD read/write sequences against an HD61202 reference model on both implementations; complete enumeration of the VRAM-bit to pixel map",
+         "Exploration: generated command/data sequences over all chip-select decodings; chip state and read values equal the model after every step in both implementations; all 8192 VRAM bits enumerated for the pixel map.",
+         RUST_NOTE),
+ "C16": ("snapshot-point enumeration: every step index of generated machine scenarios as save/load point, original-vs-restored step-for-step equality; cross-implementation loading",
+         "Fault-enumeration style exploration: for generated scenarios every step index is a snapshot point; the restored machine must match the uninterrupted one on registers, memory, LCD, keyboard, timers and interrupts for K further steps.",
+         RUST_NOTE + " Wall-clock fields and perf counters are not compared."),
+ "C17": ("complete comparison of all 256 opcode rows and every duplicated constant/table across copies, with behavioural probes for private constants",
+         "Exhaustive over a finite domain: every duplicated table row/constant is compared across all of its copies (Python decoder, arch/view definitions, Python emulator, Rust core), and view segments are checked for disjointness and placement.",
+         RUST_NOTE + " Normalising mapping between Python operand classes and Rust operand kinds is part of the trusted base."),
+ "C18": ("complete enumeration of small task sets/partitions + Hypothesis beyond, against a reference discrete-event scheduler; async-vs-sync machine equality",
+         "Exploration: scripted tasks interpreted inside the harness; resumption cycles, same-cycle order independence of budget splits, exactly-once event delivery; AsyncRuntimeRunner vs CoreRuntime.step on generated programs and slice sizes.",
+         RUST_NOTE + " No progress obligation is asserted (the scheduler's own tests document idle budgets)."),
 }
+LEVEL = {"C16": "fault_enumeration"}
 
 PENDING_REASON = "check under construction in this session; not claimed until its machinery is merged and quiet on the unchanged tree"
 ALL = [f"C{i:02d}" for i in range(1, 19)]
@@ -22,7 +70,8 @@ def main():
     claimed = [p for p in ALL if p in CHECKS and os.path.exists(os.path.join(ROOT, "vp_harness", "props", p.lower() + ".py")) and p in ENABLED]
     checks = []
     for p in claimed:
-        tech, text, note, ref = CHECKS[p]
+        tech, text, note = CHECKS[p]
+        ref = f"DESIGN.md section 4/{p}"
         checks.append({
             "property_id": p,
             "quick_cmd": f"./check {p} --tier quick",
@@ -30,7 +79,7 @@ def main():
             "evidence_file": f"evidence/{p}.json",
             "replay_cmd_template": f"./check {p} --replay {{path}}",
             "engine": "vp_harness",
-            "level_claimed": {"category": "exploration", "text": text, "design_ref": ref},
+            "level_claimed": {"category": LEVEL.get(p, "exploration"), "text": text, "design_ref": ref},
             "level_note": note,
             "technique": tech,
         })
@@ -55,6 +104,6 @@ def main():
         fh.write("\n")
     print("claimed:", claimed)
 
-ENABLED = {"C01"}
+ENABLED = {"C01", "C02", "C17"}
 if __name__ == "__main__":
     main()
